@@ -135,6 +135,23 @@ CHECKS['C19'] = dict(
    note='Data-race freedom in the C++ memory-model sense is observed by ThreadSanitizer on the recorded executions, not decided by the '
         'model; the model decides the locking discipline. One known finding (ICU vector registers) is listed in known_findings.json.',
    technique='TLA+ spec + TLC model checking of all interleavings (safety + liveness) + TLC interleaving search over recorded two-thread runs')
+CHECKS['C08'] = dict(
+   text='Round-trip theorems (push;pop for every pushable register/word/product/accumulator, call/callr/calla;ret in both pc word '
+        'orders, interrupt entry;reti/retic on every line, cntx s;r, banke/bankr twice) are evaluated by TLC on the specification from '
+        'random complete register states; each instruction of these families is bound to the specification by validating every '
+        'encoding executed by the real interpreter in full.',
+   design_ref='5.8',
+   note='Trusted: TLC, CommunityModules, g++, the frozen TLA+ semantics. Theorems are evaluated on sampled states (thousands), not all; '
+        'product push/pop is stated with the product shifter off.',
+   technique='TLA+ spec: TLC evaluation of pair theorems on sampled states + TLC trace validation of real instruction executions')
+CHECKS['C09'] = dict(
+   text='Loop programs generated from (depth 1..4, counts, rep, two-word last instruction, register/immediate count) parameters are '
+        'executed cycle by cycle on the specification by TLC and compared with the unrolled execution counts, the visible loop counter '
+        'sequence and the loop-state invariants; random loop programs (incl. frame store/restore) run on a real Teakra and are '
+        'validated cycle by cycle; every encoding of the loop instructions is validated from random states.',
+   design_ref='5.9',
+   note='Trusted: TLC, CommunityModules, g++, the frozen TLA+ semantics. Counts are enumerated for small values and sampled above.',
+   technique='TLA+ spec: TLC evaluation of parametrised loop programs + TLC trace validation (system and instruction level)')
 NOT_YET = {}
 def main():
     props = [json.loads(l)['id'] for l in open(os.path.join(V, 'properties.jsonl'))]
